@@ -37,7 +37,7 @@ RULE = (
     "flight together and completed in an order different from their start order, or a look-up failed (F4) while "
     "others were in flight; distinct = distinct event-log digests among the non-trivial cases"
 )
-PACKAGE = re.compile(r"\[(\d+P)(\d+\.\.\d+)?\]")
+PACKAGE = re.compile(r"\[\s*(\d+P)\s*(\d+\.\.\d+)?\s*\]")
 TIME = {"[UB1]": "[932]", "[UB2]": "[934]", "[UB3]": "([932][492]X[934][493])"}
 
 
@@ -47,7 +47,7 @@ def substitute(expression, table, packages, time_conditions):
     if packages:
         text = PACKAGE.sub(lambda m: f"({table[m.group(1)]})", text)
     if time_conditions:
-        text = re.sub(r"\[UB[123]\]", lambda m: TIME[m.group(0)], text)
+        text = re.sub(r"\[\s*(UB[123])\s*\]", lambda m: TIME[f"[{m.group(1)}]"], text)
     return text
 
 
@@ -137,6 +137,9 @@ def generate(seed, tier="quick"):
     rnd = rng(seed, "c10")
     cond_keys = [str(k) for k in rnd.sample(range(1, 1000), rnd.randint(2, 6))] + [str(rnd.randint(2000, 2499))]
     package_keys = [f"{k}P" for k in rnd.sample(range(1, 1000), rnd.randint(2, 5))]
+    if rnd.random() < 0.1:  # INT allows leading zeros and zero
+        cond_keys.append(rnd.choice(["007", "0", "0932"]))
+        package_keys.append(rnd.choice(["01P", "0P", "0010P"]))
     n_requests = rnd.choice([1, 1, 1, 2, 2, 3])
     requests = [_gen_request(rnd, f"r{i}", cond_keys, package_keys) for i in range(n_requests)]
     # the same process serves several callers with *different* package tables: one after the other, or at once
